@@ -142,7 +142,7 @@ func (its *PushPullHandler) finalize() {
 	if its.locked {
 		defer its.lock.Unlock()
 	}
-	defer vhook.At("pp.cs-exit", its.getLockKey(), its.locked)
+	defer vhook.At("pp.cs-exit", its.getLockKey(), its.locked, its.collectionDoc.Num, its.Key, its.CUID)
 	if its.err == nil {
 		its.ctx.L().Infof("finish with CP %v -> %v and pulled ops: %d",
 			its.initialCP.ToString(), its.currentCP.ToString(), len(its.resPushPullPack.Operations))
@@ -193,7 +193,7 @@ func (its *PushPullHandler) logInitialConditions() {
 func (its *PushPullHandler) process(retCh chan *model.PushPullPack) {
 
 	its.locked = its.lock.TryLock()
-	vhook.At("pp.cs-enter", its.getLockKey(), its.locked)
+	vhook.At("pp.cs-enter", its.getLockKey(), its.locked, its.collectionDoc.Num, its.Key, its.CUID)
 
 	defer its.finalize()
 
@@ -226,7 +226,7 @@ func (its *PushPullHandler) process(retCh chan *model.PushPullPack) {
 	if its.err = its.pullOperations(); its.err != nil {
 		return
 	}
-	vhook.At("pp.before-commit", its.getLockKey())
+	vhook.At("pp.before-commit", its.getLockKey(), its.locked, its.collectionDoc.Num, its.Key, its.CUID)
 	if its.err = its.commitToMongoDB(); its.err != nil {
 		return
 	}
